@@ -32,6 +32,7 @@ type propCfg struct {
 	Assume     []string `json:"assumptions"`
 	Rule       string   `json:"rule"`
 	GoMaxProcs int      `json:"gomaxprocs"`
+	RaceTest   string   `json:"race_test"` // auxiliary free-running -race pass (harness/race)
 }
 
 type known struct {
@@ -204,6 +205,47 @@ func main() {
 	m := report.Merge(got)
 	m.EngineErrors = append(m.EngineErrors, engineErrs...)
 
+	// 3b. auxiliary free-running race pass (sampling; reported separately, see DESIGN.md §2.7)
+	raceIters, raceReports := int64(-1), int64(0)
+	raceNote := ""
+	if cfg.RaceTest != "" && replay == "" {
+		rbin := filepath.Join(build, "race.test")
+		rc := exec.Command("go1.26.8", "test", "-c", "-race", "-vet=off", "-tags", "verif", "-overlay", filepath.Join(build, "overlay.json"), "-o", rbin, "./harness/race")
+		rc.Dir = root
+		rc.Env = append(env(), "CGO_ENABLED=1")
+		if out, err := rc.CombinedOutput(); err != nil {
+			raceNote = "race build unavailable: " + report.Clip(report.OneLine(string(out)), 200)
+		} else {
+			rr := exec.Command(rbin, "-test.run", "^"+cfg.RaceTest+"$", "-test.v", "-test.count", "1")
+			rr.Dir = filepath.Join(root, "harness", "race")
+			rr.Env = append(env(), "VERIF_TIER="+tier, "TMPDIR="+scratch, "GORACE=halt_on_error=0")
+			out, _ := rr.CombinedOutput()
+			text := string(out)
+			raceReports = int64(strings.Count(text, "WARNING: DATA RACE"))
+			raceIters = 0
+			if i := strings.Index(text, "aux_race_iterations="); i >= 0 {
+				fmt.Sscanf(text[i:], "aux_race_iterations=%d", &raceIters)
+			}
+			if raceReports > 0 {
+				// key: the first two function frames of the first report
+				var frames []string
+				after := text[strings.Index(text, "WARNING: DATA RACE"):]
+				for _, ln := range strings.Split(after, "\n") {
+					ln = strings.TrimSpace(ln)
+					if strings.HasSuffix(ln, ")") && strings.Contains(ln, ".") && !strings.HasPrefix(ln, "/") && !strings.Contains(ln, " ") {
+						frames = append(frames, ln[:strings.Index(ln, "(")])
+						if len(frames) == 2 {
+							break
+						}
+					}
+				}
+				m.Violations = append(m.Violations, report.Violation{Key: "data-race: " + strings.Join(frames, " / "), Section: "aux-race", Message: "the race detector reported a data race in the free-running pass (" + cfg.RaceTest + "): " + report.Clip(report.OneLine(after), 700), Replay: map[string]any{"race_test": cfg.RaceTest}})
+			} else if !strings.Contains(text, "PASS") {
+				raceNote = "race pass did not complete: " + report.Clip(report.OneLine(text), 300)
+			}
+		}
+	}
+
 	// 4. known findings
 	var kf known
 	if b, err := os.ReadFile(filepath.Join(root, "known_findings.json")); err == nil {
@@ -297,6 +339,9 @@ func main() {
 		"engine_errors":                 m.EngineErrors,
 		"known_findings_reported":       len(m.Violations) - nviol,
 		"worker_processes":              n,
+		"aux_race_iterations":           raceIters,
+		"aux_race_reports":              raceReports,
+		"aux_race_note":                 raceNote,
 		"explanation":                   "every evaluation executes setec's own code (built from /repo's working tree through the overlay); there is no separate model, so traces validated against the implementation = evaluations",
 	}
 	ev.Assumptions = append(append([]string{}, cfg.Assume...), m.Assumptions...)
